@@ -326,7 +326,18 @@ def child_exact_actions(env, path):
         E = common.new_eups()
         try:
             acts = Table(path).actions(E.flavor, setupType=["exact"])
-            return {"flavor": E.flavor,
+            pa = []          # Action.processArgs on every setup command: [optional, product, version] when it reads `product -j version`
+            for a in acts:
+                if str(a.cmd) == "setupRequired":
+                    try:
+                        vro, pname, pdir, vers, vexpr, extra = a.processArgs(E, fwd=True)
+                        simple = (extra.get("noRecursion") is True and vers is not None and not vexpr and not pdir
+                                  and not extra.get("isExternal") and not extra.get("noAction")
+                                  and len(a.args) == 3)
+                        pa.append([bool(a.extra.get("optional")), pname, vers] if simple else None)
+                    except Exception as ex:  # noqa
+                        pa.append("EXC:" + type(ex).__name__)
+            return {"flavor": E.flavor, "process_args": pa,
                     "acts": [{"cmd": str(a.cmd), "args": [str(x) for x in a.args], "extra": {k: a.extra[k] for k in sorted(a.extra)}}
                              for a in acts]}
         except Exception as ex:  # noqa
@@ -958,6 +969,11 @@ def evaluate(ctx, cases):
                 iv2 = xa["acts"] if not isinstance(xa["acts"], str) else "error"
                 if iv2 != ma["direct"]:
                     ctx.disagree("exact_mode_actions", {"case": inp, "expansion": 0}, iv2, ma["direct"])
+                elif "process_args" in xa and xa["process_args"] != ma.get("pins"):
+                    # the real Action.processArgs against `toPin`, on every setup command of the exact-mode action list
+                    ctx.disagree("process_args", {"case": inp, "expansion": 0}, xa["process_args"], ma.get("pins"))
+                else:
+                    ctx.hist("process_args_checked", len(xa.get("process_args") or []))
                 noex = (hyps.get((ci, 0)) or {}).get("noExactLine")
                 ctx.hist("hyp_blocksOK=%s" % ma["blocksOK"])
                 ctx.hist("hyp_inert2=%s" % ma["inert2"])
